@@ -61,6 +61,10 @@ def _pool(m, tier):
     P["u4"] = u4
     P["tfrac"] = np.array([r.random() for _ in range(m)])
     P["tfrac"][0] = 0.0
+    # near-duplicates: instants a fraction of a second apart (for a day-long observation),
+    # as events of a real batch are when many are thrown
+    for k in range(3, m, 7):
+        P["tfrac"][k] = P["tfrac"][k - 1] + (0.3, 0.04, 0.6)[(k // 7) % 3] / 86400.0
     beta = np.array([r.uniform(0.0, math.radians(42.0)) for _ in range(m)])
     # out-of-table angles for the tau tables (min ~0.1 deg .. max 42 deg)
     for k in range(m):
@@ -292,6 +296,23 @@ def scn_history(ctx):
         tcfg.simulation.target.source_obst = (86400, 3600, 7 * 86400)[ch.draw(3, "obst")]
     objs = {}
 
+    clouds = {}
+
+    def cloud_fn(label):
+        if label not in clouds:
+            if label == "config":
+                clouds[label] = obj("cloud")
+            elif label == "none":
+                clouds[label] = None
+            else:
+                from .c10 import ConstCloud
+
+                clouds[label] = ConstCloud(float(label[5:]))
+        return clouds[label]
+
+    FRESH = {"geom": lambda: RegionGeom(cfg), "too": lambda: RegionGeomToO(tcfg), "spec": lambda: Spectra(cfg), "taus": lambda: Taus(cfg),
+             "eas": lambda: EAS(cfg), "radio": lambda: EASRadio(cfg), "cloud": lambda: CloudTopHeight(cfg)}
+
     def obj(name):
         if name not in objs:
             objs[name] = {
@@ -303,7 +324,7 @@ def scn_history(ctx):
     memo = Memo(m)
     n_ops = 5 + ch.draw(28 if not big else 10, "n_ops")
     cheap = ("geom", "tau_exit_prob", "tau_energy_u", "tau_energy_const", "taus_call", "altDec", "geom_call_seeded", "spec")
-    allst = cheap + ("too", "radio", "eas", "eas", "too", "radio", "altDec_seeded", "taus_call_seeded", "radio_seeded", "mcint", "mcint_too", "eas")
+    allst = cheap + ("too", "radio", "eas", "eas", "too", "radio", "altDec_seeded", "taus_call_seeded", "radio_seeded", "mcint", "mcint_too", "eas", "construct")
     last_throw = {}
     stages = cheap if big else allst
     maxlen = 20001 if big else 48
@@ -338,6 +359,15 @@ def scn_history(ctx):
             ctx.steps += 1
             L = lambda a, lab="layout": histsim.layout(ch, a, lab)  # noqa: E731
 
+            if st == "construct":
+                # another object of one of the stage classes comes to life (a second run's, say):
+                # the long-lived ones must not notice
+                which = ("radio", "taus", "eas", "geom", "too", "spec", "cloud")[ch.draw(7, "construct_which")]
+                other = FRESH[which]()
+                del other
+                ctx.probes["other_object_constructed"] += 1
+                ctx.log(f"op{opi} construct {which}")
+                continue
             if st == "geom":
                 g = obj("geom")
                 u = np.ascontiguousarray(P["u4"][:, idx]) if ch.draw(4, "u_layout") else np.asfortranarray(P["u4"][:, idx])
@@ -492,13 +522,22 @@ def scn_history(ctx):
                     ctx.violate("c11.repeat", f"op {opi} EAS.altDec repeated with the same generator state (or with the same numbers passed explicitly) gives different results", sig="EAS.altDec")
             elif st == "eas":
                 ea = obj("eas")
-                cloud = obj("cloud")
+                clabel = ("config", "config", "const3", "none", "const9")[ch.draw(5, "cloudf")]
+                cloud = cloud_fn(clabel)
                 args = [L(P["beta"][idx], "lb"), L(P["altDec"][idx], "la"), L(P["showerE"][idx], "ls"), L(P["lat"][idx], "lla"), L(P["lon"][idx], "llo")]
                 with dask.config.set(scheduler="synchronous"):
-                    out = _guard_args(ctx, "EAS.__call__", opi, args, lambda: ea(*args, cloudf=cloud), lambda: EAS(cfg)(*[np.array(a) for a in args], cloudf=CloudTopHeight(cfg)))
-                if out is _FAILED:
-                    continue
-                memo.observe(ctx, "EAS.__call__", "none", idx, list(out), opi, n)
+                    out = _guard_args(ctx, "EAS.__call__", opi, args, lambda: ea(*args, cloudf=cloud), lambda: EAS(cfg)(*[np.array(a) for a in args], cloudf=cloud))
+                    if out is _FAILED:
+                        continue
+                    if n <= 12 and ch.draw(3, "fresh_check") == 2:
+                        # the model without memory: a fresh object on the same batch
+                        ref = EAS(cfg)(*[np.array(a) for a in args], cloudf=cloud)
+                        ctx.probes["fresh_object_cross_check"] += 1
+                        for k, (a_, b_) in enumerate(zip(out, ref)):
+                            if histsim.abytes(np.asarray(a_)) != histsim.abytes(np.asarray(b_)):
+                                ctx.violate("c11.differs_from_fresh_object", f"op {opi} EAS.__call__[cloud={clabel}] output {k}: the long-lived object returns {np.asarray(a_).ravel()[:3]!r}, a fresh object {np.asarray(b_).ravel()[:3]!r} for the same batch", sig="EAS.__call__")
+                                break
+                memo.observe(ctx, "EAS.__call__", "cloud=" + clabel, idx, list(out), opi, n)
                 inr = int(np.count_nonzero((P["altDec"][idx] >= 0) & (P["altDec"][idx] <= 20)))
                 if inr == 0:
                     ctx.probes["optical_batch_all_out_of_range"] += 1
